@@ -1446,6 +1446,88 @@ class DB:
                         if not st["lhs"][1]:
                             disc_locals.add(st["lhs"][0])
                         touched = True
+            # constants of the enum that were promoted (`&CleanupState::Pending` as an operand of `==`)
+            for pb_ in (f.raw.get("promoted") or []):
+                for b in (pb_ if isinstance(pb_, list) else pb_.get("blocks", [])):
+                    for st in b.get("stmts", []):
+                        rv = st.get("rv") or {}
+                        if st.get("k") == "assign" and rv.get("k") == "agg" and rv.get("adt") in flags and not rv.get("ops"):
+                            idx = rv.get("vidx")
+                            if idx is None:
+                                idx = flags[rv["adt"]].index(rv.get("variant")) if rv.get("variant") in flags[rv["adt"]] else 0
+                            st["rv"] = {"k": "use", "op": {"k": "const", "ty": "bool", "val": "true" if int(idx) == 1 else "false"}, "was_enum": rv.get("adt"), "variant": rv.get("variant")}
+                            touched = True
+            # the derived `==` / `!=` of the enum: a comparison of two bools; against a constant it is the flag or its negation
+            def single_def(l):
+                ds = []
+                for b in f.blocks:
+                    for st in b["stmts"]:
+                        if st.get("k") == "assign" and st["lhs"] == [l, []]:
+                            ds.append(st)
+                    if b["term"].get("k") == "call" and b["term"].get("dest") == [l, []]:
+                        ds.append(None)
+                return ds[0] if len(ds) == 1 else None
+            def const_of_ref(op):
+                """value of `&CONST` operands: a reference to a promoted constant, or to a local assigned a constant"""
+                pl = op.get("p") if op.get("k") in ("copy", "move") else None
+                for _ in range(4):
+                    if pl is None or pl[1]:
+                        return None
+                    st = single_def(pl[0])
+                    if st is None:
+                        return None
+                    rv = st["rv"]
+                    if rv["k"] == "ref":
+                        tgt = rv["p"]
+                        if tgt[1] == ["*"]:
+                            pl = [tgt[0], []]
+                            continue
+                        if not tgt[1]:
+                            st2 = single_def(tgt[0])
+                            if st2 is not None and st2["rv"]["k"] == "use" and st2["rv"]["op"].get("k") == "const" and st2["rv"]["op"].get("val") in ("true", "false"):
+                                return st2["rv"]["op"]["val"]
+                        return None
+                    if rv["k"] == "use":
+                        o2 = rv["op"]
+                        if o2.get("k") == "const" and "promoted" in o2:
+                            prom = f.raw.get("promoted") or []
+                            i = o2["promoted"]
+                            if isinstance(i, int) and i < len(prom):
+                                pbk = prom[i] if isinstance(prom[i], list) else prom[i].get("blocks", [])
+                                for b in pbk:
+                                    for s2 in b.get("stmts", []):
+                                        rv2 = s2.get("rv") or {}
+                                        if s2.get("k") == "assign" and rv2.get("k") == "use" and rv2["op"].get("k") == "const" and rv2["op"].get("val") in ("true", "false"):
+                                            return rv2["op"]["val"]
+                            return None
+                        pl = o2.get("p") if o2.get("k") in ("copy", "move") else None
+                        continue
+                    return None
+                return None
+            for b in f.blocks:
+                t = b["term"]
+                if t.get("k") != "call" or t.get("target") is None or len(t.get("args", [])) != 2:
+                    continue
+                info = (t.get("func") or {}).get("fn") or {}
+                if info.get("def") not in ("std::cmp::PartialEq::eq", "std::cmp::PartialEq::ne") or info.get("self_ty") not in flags:
+                    continue
+                a0, a1 = t["args"]
+                if a0.get("k") not in ("copy", "move") or a1.get("k") not in ("copy", "move") or a0["p"][1] or a1["p"][1]:
+                    continue
+                is_ne = info["def"].endswith("::ne")
+                c1, c0 = const_of_ref(a1), const_of_ref(a0)
+                other = a0 if c1 is not None else (a1 if c0 is not None else None)
+                cval = c1 if c1 is not None else c0
+                if other is not None:
+                    same = (cval == "true") != is_ne          # result == flag ?
+                    src = {"k": "copy", "p": [other["p"][0], ["*"]]}
+                    rv = {"k": "use", "op": src} if same else {"k": "un", "op": "Not", "a": src}
+                else:
+                    rv = {"k": "bin", "op": "Ne" if is_ne else "Eq", "a": {"k": "copy", "p": [a0["p"][0], ["*"]]}, "b": {"k": "copy", "p": [a1["p"][0], ["*"]]}}
+                rv["was_enum_eq"] = info.get("self_ty")
+                b["stmts"].append({"k": "assign", "l": t.get("l"), "lhs": t["dest"], "rv": rv})
+                b["term"] = {"l": t.get("l"), "k": "goto", "target": t["target"], "was_call": info["def"]}
+                touched = True
             if disc_locals:
                 for l in disc_locals:
                     f.locals[l]["ty"] = "bool"
